@@ -266,10 +266,10 @@ def run(ch: Checker) -> None:
         ok6 = len(fl) == 4 and norm(fl[0]) == bh.params[0] and vals[1] == b':' and vals[2] == b' ' and norm(fl[3]) == bh.params[1]
     ch.check(ok6, 'C15.6', bh, 'header join', 'name COLON SP value', 'build_http_header does not emit name ":" SP value: %s' % [norm(r) for r in rets])
     pl = prog.own_method('HttpParser', '_process_line')
-    lsplits = [c for c in walk_no_nested(pl.node) if isinstance(c, ast.Call) and isinstance(c.func, ast.Attribute) and c.func.attr == 'split' and norm(c.func.value) == 'line']
+    lsplits = [c for c in walk_no_nested(pl.node) if isinstance(c, ast.Call) and isinstance(c.func, ast.Attribute) and c.func.attr == 'split' and c.args and ce.try_eval(pl.module, c.args[0]) != b'\r\n']
     ok6 = len(lsplits) >= 1 and all(len(c.args) == 2 and ce.try_eval(pl.module, c.args[0]) == b' ' and ce.try_eval(pl.module, c.args[1]) == 2 for c in lsplits)
     bp = prog.function('proxy.common.utils', 'build_http_pkt')
-    joins = [c for c in walk_no_nested(bp.node) if isinstance(c, ast.Call) and isinstance(c.func, ast.Attribute) and c.func.attr == 'join']
+    joins = [c for c in walk_no_nested(bp.node) if isinstance(c, ast.Call) and isinstance(c.func, ast.Attribute) and c.func.attr == 'join' and c.args and norm(c.args[0]) == bp.params[0]]
     ok6 = ok6 and len(joins) == 1 and ce.try_eval(bp.module, joins[0].func.value) == b' '
     ch.check(ok6, 'C15.6', pl, 'start line', 'start line split(SP, 2) / join(SP)', 'start-line split/join separators disagree: splits %s joins %s' % ([norm(c) for c in lsplits], [norm(c) for c in joins]))
 
